@@ -3,6 +3,7 @@
      C<i> call_rcu(object i)   c<i> call_rcu(object i) whose callback re-enqueues object i+1   B rcu_barrier()
      ( ) read-side section     H create and install a per-thread helper   K uninstall and free the per-thread helper
      A create a helper and install it as the per-CPU helper of CPU 0   Z free_all_cpu_call_rcu_data()
+     S start_poll_synchronize_rcu() (the handle becomes the thread's current one)   P poll_state_synchronize_rcu(current handle)   [C14: the real poll code on the real helper]
      F call_rcu_before_fork(); [the point at which fork() would copy the address space: the pending callbacks of every helper are printed]; call_rcu_after_fork_parent()
    Helper threads are created by the library (pthread_create is interposed) and scheduled like any other thread. */
 #define RCU_MEMBARRIER
@@ -44,9 +45,11 @@ static void body(int t){
 	sprintf(tn[t],"rd%d",t); vs_region(&URCU_TLS(rcu_reader).ctr,sizeof(unsigned long),tn[t]);
 	scen_reader[t]=&URCU_TLS(rcu_reader);
 	vs_quiet_begin(); rcu_register_thread(); vs_quiet_end();
-	int depth=0;
+	int depth=0; struct urcu_gp_poll_state ph; int nph=0; memset(&ph,0,sizeof ph);
 	for(char *p=prog[t]; *p; p++){
 		switch(*p){
+		case 'S': vs_call("start",nph); ph=start_poll_synchronize_rcu(); vs_ret("start",ph.grace_period_id); nph++; break;
+		case 'P': if(nph){ vs_call("poll",nph-1); int r=poll_state_synchronize_rcu(ph); vs_ret("poll",r); } break;
 		case 'C': case 'c': { struct obj *o=&O[p[1]-'0']; o->chain=(*p=='c'); p++;
 			/* resolving (and possibly creating) the helper is library code too, but naming its region must not be scheduled */
 			struct call_rcu_data *c=get_call_rcu_data(); vs_quiet_begin(); name_crd(c); vs_quiet_end();
